@@ -523,6 +523,52 @@ func (o *oracleUnique) after(r *hRun, step, res bson.D) error {
 			o.rejections++
 			r.x.Class("index-build-rejected-for-uniqueness")
 		}
+	case "updateOne", "updateMany", "updateByID", "replaceOne":
+		// a write rejected for uniqueness must really produce a duplicate:
+		// the same call on a reference model of the pre-state (final-state
+		// uniqueness over all documents) has to be rejected as well
+		if ec == "uniq" && pre != nil {
+			m := ref.NewModel()
+			mc := &ref.MColl{Indexes: map[string]ref.MIndex{}}
+			for _, d := range plainDocs(pre) {
+				mc.Docs = append(mc.Docs, d)
+			}
+			for n, ix := range pre.Indexes {
+				cfg := ix.Config()
+				def := ref.MIndex{Key: *cfg.Key, Unique: cfg.Unique}
+				if cfg.Partial != nil {
+					def.Partial = *cfg.Partial
+				}
+				mc.Indexes[n] = def
+			}
+			m.Colls[ns] = mc
+			var mres ref.Res
+			var st ref.Status
+			if op == "replaceOne" {
+				mres, _, _, st = m.Replace(ns, ref.ReplaceArgs{Filter: asD(getD(step, "filter")), Repl: asD(getD(step, "repl")), Upsert: asB(getD(step, "upsert"))})
+			} else {
+				a := ref.UpdateArgs{Filter: asD(getD(step, "filter")), Update: asD(getD(step, "update")), ArrayFilters: toFilters(asA(getD(step, "arrayFilters"))), Upsert: asB(getD(step, "upsert")), Many: op == "updateMany"}
+				if op == "updateByID" {
+					a.Filter = bson.D{{Key: "_id", Value: getD(step, "id")}}
+				}
+				mres, _, _, st = m.Update(ns, a)
+			}
+			if st == ref.OK {
+				o.exactChecked++
+				if mres.Err == "" {
+					return fmt.Errorf("%s was rejected for uniqueness although applying it leaves no two documents with the same key under any unique index (reference result: matched %d, modified %d)", op, mres.Matched, mres.Modified)
+				}
+				r.x.Class("rejection-confirmed-by-reference:" + op)
+			} else {
+				r.x.Class("rejection-outside-reference:" + op)
+			}
+		}
+		if ec == "uniq" {
+			o.rejections++
+			r.x.Class("write-rejected-for-uniqueness:" + op)
+		} else if ec == "" && op == "updateMany" && asI64(getD(res, "modified")) >= 2 {
+			o.multiAccepted++
+		}
 	default:
 		if ec == "uniq" {
 			o.rejections++
